@@ -83,4 +83,41 @@ theorem thole_large_separation (x y z f au3 au3' : Rat) (h' : 40 ≤ au3') : tho
   have hn : ¬ au3' < 40 := not_lt.mpr h'
   by_cases h : au3 < 40 <;> simp [thole, h, hn]
 
+/-! ## rotation invariance for ranks 0 and 1 (rank 2 needs the 5×5 transformation of the spherical quadrupole components: searched
+numerically by the check, not proved) -/
+
+/-- closed form of the pair energy for sites of rank at most 1 (a charge and a dipole each): everything is a dot product -/
+theorem rank1_closed_form (x y z f s qa ax ay az qb bx «by» bz : Rat) :
+    energy x y z f s ⟨qa, ax, ay, az, 0, 0, 0, 0, 0⟩ ⟨qb, bx, «by», bz, 0, 0, 0, 0, 0⟩ =
+      qa * qb * f - qa * (x * bx + y * «by» + z * bz) * (f * f) + qb * (x * ax + y * ay + z * az) * (f * f) +
+      (ax * bx + ay * «by» + az * bz - 3 * (x * ax + y * ay + z * az) * (x * bx + y * «by» + z * bz)) * (f * f * f) := by
+  simp only [energy, dot, vSite, Gen.EE.g0, Gen.EE.g1, Gen.EE.g2, Gen.EE.g3, Gen.EE.g4, Gen.EE.c0x, Gen.EE.c0y, Gen.EE.c0z, Gen.EE.c1x, Gen.EE.c1y, Gen.EE.c1z, Gen.EE.c2x, Gen.EE.c2y, Gen.EE.c2z, Gen.EE.c3x, Gen.EE.c3y, Gen.EE.c3z, Gen.EE.c4x, Gen.EE.c4y, Gen.EE.c4z, Gen.EE.m00, Gen.EE.m10, Gen.EE.m11, Gen.EE.m20, Gen.EE.m21, Gen.EE.m22, Gen.EE.m30, Gen.EE.m31, Gen.EE.m32, Gen.EE.m33, Gen.EE.m40, Gen.EE.m41, Gen.EE.m42, Gen.EE.m43, Gen.EE.m44]; ring
+
+/-- a linear map of 3-vectors given by its nine entries -/
+def rot (r : Fin 3 → Fin 3 → Rat) (v : Rat × Rat × Rat) : Rat × Rat × Rat :=
+  (r 0 0 * v.1 + r 0 1 * v.2.1 + r 0 2 * v.2.2, r 1 0 * v.1 + r 1 1 * v.2.1 + r 1 2 * v.2.2, r 2 0 * v.1 + r 2 1 * v.2.1 + r 2 2 * v.2.2)
+
+def dot3 (u v : Rat × Rat × Rat) : Rat := u.1 * v.1 + u.2.1 * v.2.1 + u.2.2 * v.2.2
+
+/-- **rotation invariance for ranks 0 and 1**: rotating the connection direction and both dipoles by the same map that preserves dot
+    products (an orthogonal matrix) leaves the pair energy unchanged -/
+theorem rank1_rotation_invariant (r : Fin 3 → Fin 3 → Rat) (horth : ∀ u v, dot3 (rot r u) (rot r v) = dot3 u v)
+    (a ma mb : Rat × Rat × Rat) (f s qa qb : Rat) :
+    energy (rot r a).1 (rot r a).2.1 (rot r a).2.2 f s ⟨qa, (rot r ma).1, (rot r ma).2.1, (rot r ma).2.2, 0, 0, 0, 0, 0⟩
+        ⟨qb, (rot r mb).1, (rot r mb).2.1, (rot r mb).2.2, 0, 0, 0, 0, 0⟩ =
+      energy a.1 a.2.1 a.2.2 f s ⟨qa, ma.1, ma.2.1, ma.2.2, 0, 0, 0, 0, 0⟩ ⟨qb, mb.1, mb.2.1, mb.2.2, 0, 0, 0, 0, 0⟩ := by
+  rw [rank1_closed_form, rank1_closed_form]
+  have h1 := horth a mb
+  have h2 := horth a ma
+  have h3 := horth ma mb
+  unfold dot3 at h1 h2 h3
+  rw [h1, h2, h3]
+
+/-- non-vacuity: the rotation by 90 degrees about z preserves dot products -/
+example : ∀ u v : Rat × Rat × Rat, dot3 (rot (fun i j => if (i, j) = (0, 1) then -1 else if (i, j) = (1, 0) then 1 else if (i, j) = (2, 2) then 1 else 0) u)
+    (rot (fun i j => if (i, j) = (0, 1) then -1 else if (i, j) = (1, 0) then 1 else if (i, j) = (2, 2) then 1 else 0) v) = dot3 u v := by
+  intro u v
+  simp [dot3, rot]
+  ring
+
 end Votca.C15
